@@ -135,7 +135,8 @@ def work(p):
         fam.params = [gm.Param("x", "normal", vals=["X1()", "X2()", "X3()", "X4()", "X5()", "X6()"])]
         fam.ret_vals = ["X2()", "X1()", "X4()", "X3()", "X6()", "X5()"]
         tdf = gm.FuncSpec(98, "td_family", [], "module", "plain")
-        tdf.params = [gm.Param("d", "normal", vals=["{'a': 1}", "{'b': 'x'}", "{'a': 1, 'c': None}", "{'c': 2}", "{'c': 2, 'b': 1}"])]
+        tdf.params = [gm.Param("d", "normal", vals=["{'a': 1}", "{'b': 'x'}", "{'a': 1, 'c': None}", "{'c': 2}", "{'c': 2, 'b': 1}"]),
+                      gm.Param("cased", "normal", vals=["{'ID': 1}", "{'id': 'x'}", "{'Id': None}", "{'ID': 2}", "{'id': 'y'}"])]
         tdf.ret_vals = ["[{'q': 1}, {'r': 2}]", "[{'r': 'x', 's': 1}]", "[{'s': None}]"]
         tup = gm.FuncSpec(97, "tuple_family", [], "module", "plain")
         tup.params = [gm.Param("t", "normal", vals=["(1,)", "(1, 2)", "(1, 2, 3)", "('a',)", "('a', 'b')", "('a', 'b', 'c')", "(1, 2, 3, 4)"])]
@@ -195,7 +196,7 @@ def work(p):
             res.violation("harness:module-does-not-import", repr(e), {"source": m.source})
             continue
         k = spec["k"]
-        plan = m.call_plan(rng, None, ncalls=(4, 12)) + [(fam, [v], {}) for v in fam.params[0].vals] + [(tdf, [v], {}) for v in tdf.params[0].vals] + [(tup, [v], {}) for v in tup.params[0].vals] + [(abcf, [v], {}) for v in abcf.params[0].vals]
+        plan = m.call_plan(rng, None, ncalls=(4, 12)) + [(fam, [v], {}) for v in fam.params[0].vals] + [(tdf, [v, w], {}) for v, w in zip(tdf.params[0].vals, tdf.params[1].vals)] + [(tup, [v], {}) for v in tup.params[0].vals] + [(abcf, [v], {}) for v in abcf.params[0].vals]
         plan += [(f, [v], {}) for f in dds for v in f.params[0].vals] + [(hist, [v, w], {}) for v in hist.params[0].vals for w in hist.params[1].vals]
         plan += [(f, [f.params[0].vals[0]], {}) for f in extra[nfixed:]] + [(yf, ["1"], {})] * 3
         plan += [(cfgf, [v, w], {}) for v, w in zip(cfgf.params[0].vals, cfgf.params[1].vals)]
